@@ -865,7 +865,7 @@ impl Monitor for C01 {
         vec![("layers", tier.pick(97_200, 1_555_200)), ("large_layers", tier.pick(3_000, 60_000)), ("networks", tier.pick(18_900, 302_400))]
     }
     fn rule(&self) -> &'static str {
-        "layers: case i -> (kind in conv/deconv/dense/pool, activation, geometry from the covering walk over the 108 (kernel 1..3, stride 1..3, padding 0..3, dilation 1..3) tuples per axis, channels/filters 1..3, extents up to 7, repetition-free weights/inputs/upstream gradient in [-1.5,1.5], in every fourth block of cases with 30-40% of them set to exactly 0, in one case of eight the inputs scaled by 30..2000 so that sigmoid / tanh units are deep in saturation); the layer's public backward(u, x, pre) is compared entry by entry with the forward-mode dual-number derivative of <u, post(x; theta)> w.r.t. every input element and every weight/bias/kernel element (|g - d| <= 16 * de + 1e-5 * m: de = first-order bound on the deviation of a correct f32 evaluation incl. the effect of forward rounding on the derivative factors, m = the same derivative on absolute values); the input gradient must have the input's shape. large_layers: the same layer-level check on layers that are large in one direction (dense layers with inputs up to 4095 or outputs up to 1025, spatial layers with an extent up to 130, up to 9 channels / filters, kernels 1..5, stride 1..4, padding 0..3, dilation 1..3), derivative compared at up to 40 input and 40 parameter coordinates chosen next to block boundaries (0, 1, 31..33, 63..65, ..., start of the last partial block, n-2, n-1) plus random ones. networks: depth 2..5, any mix of dense/conv/deconv/pool that fits, every third with one or two feedback blocks (1..3 loops, no skips; gradients compared per unrolled copy), all seven objectives; gradients taken from the hooked Network::backward, (every third case) from the parameter change of one learn() step with plain SGD, or (every fifth block of cases) from the hooked backward of a network object that has already been trained for 1..3 steps (oracle at the parameters read back from it); oracle = derivative of the objective value for AE/MSE/BCE/KL and for soft-max + cross-entropy, of <objective gradient, output> for MAE/RMSE/CE. One sixth of the spatial network cases use inputs with flat regions (two values in runs): max-pool windows whose tied elements are the same local function of the parameters (equal value and equal directional derivative along a random direction) are kept - the maximum is differentiable there - all other ties are regenerated. Instances within 1e-3 of a ReLU kink / pool tie or with saturated sigmoid (pre > 6) are regenerated. Distinct = distinct configuration descriptors."
+        "layers: case i -> (kind in conv/deconv/dense/pool, activation, geometry from the covering walk over the 108 (kernel 1..3, stride 1..3, padding 0..3, dilation 1..3) tuples per axis, channels/filters 1..3, extents up to 7, repetition-free weights/inputs/upstream gradient in [-1.5,1.5], in every fourth block of cases with 30-40% of them set to exactly 0, in one case of eight the inputs scaled by 30..2000 so that sigmoid / tanh units are deep in saturation); the layer's public backward(u, x, pre) is compared entry by entry with the forward-mode dual-number derivative of <u, post(x; theta)> w.r.t. every input element and every weight/bias/kernel element (|g - d| <= 16 * de + 1e-5 * m: de = first-order bound on the deviation of a correct f32 evaluation incl. the effect of forward rounding on the derivative factors, m = the same derivative on absolute values); the input gradient must have the input's shape. large_layers: the same layer-level check on layers that are large in one direction (dense layers with inputs up to 4095 or outputs up to 1025, spatial layers with an extent up to 130, up to 9 channels / filters, kernels 1..5, stride 1..4, padding 0..3, dilation 1..3), derivative compared at up to 40 input and 40 parameter coordinates chosen next to block boundaries (0, 1, 31..33, 63..65, ..., start of the last partial block, n-2, n-1) plus random ones. networks: depth 2..5, any mix of dense/conv/deconv/pool that fits (ending in a dense layer; in every fifth backward case whose last-but-one layer is a convolution / deconvolution the dense layer is removed, so that the network ends in a spatial layer with an image-shaped target), every third with one or two feedback blocks (1..3 loops, no skips; gradients compared per unrolled copy), all seven objectives; gradients taken from the hooked Network::backward, (every third case) from the parameter change of one learn() step with plain SGD, or (every fifth block of cases) from the hooked backward of a network object that has already been trained for 1..3 steps (oracle at the parameters read back from it); oracle = derivative of the objective value for AE/MSE/BCE/KL and for soft-max + cross-entropy, of <objective gradient, output> for MAE/RMSE/CE. One sixth of the spatial network cases use inputs with flat regions (two values in runs): max-pool windows whose tied elements are the same local function of the parameters (equal value and equal directional derivative along a random direction) are kept - the maximum is differentiable there - all other ties are regenerated. Instances within 1e-3 of a ReLU kink / pool tie or with saturated sigmoid (pre > 6) are regenerated. Distinct = distinct configuration descriptors."
     }
     fn assumptions(&self) -> Vec<&'static str> {
         vec![
